@@ -250,16 +250,15 @@ func (ir *ifdReader) parseFocalLength(t Tag) meta.FocalLength {
 }
 
 // ParseSubSecTime parses an ASCII or ASCII no Nul.
-// Embedded tag with value length 4 bytes.
-// Value is in milliseconds.
+// The value holds the fractional digits of the second ("5" is 0.5s, "05" is
+// 0.05s, "123456" is 0.123456s). Result is in milliseconds.
 func (ir *ifdReader) ParseSubSecTime(t Tag) uint16 {
 	if t.IsType(tag.TypeASCII) || t.IsType(tag.TypeASCIINoNul) {
 		if t.IsEmbedded() {
 			t.EmbeddedValue(ir.buffer.buf[:4])
-			return uint16(parseStrUint(ir.buffer.buf[:4]))
+			return subSecMillis(ir.buffer.buf[:t.Size()])
 		}
-		buf := ir.ParseBuffer(t)
-		return uint16(parseStrUint(buf) / 1000)
+		return subSecMillis(ir.ParseBuffer(t))
 	}
 	if ir.logLevelWarn() {
 		t.logTag(ir.logWarn()).Msg("Unrecognized tag type")
